@@ -455,6 +455,13 @@ def decide(prop, tier="quick", seed=0):
             info["vacuity_probes"] = len(expected); info["vacuity_probes_failed_as_required"] = len(expected) - len(missing)
             if missing:
                 undecided.append("%s: vacuity probe(s) at line(s) %s of %s verified -- contradictory precondition" % (u, missing[:5], os.path.basename(uv["path"])))
+        if tier == "thorough" and ur["status"] == "ok":
+            # proof stability: two more solver seeds; a disagreement means an unstable proof (undecided), not a violation
+            for sd in (11, 23):
+                r2 = classify(run_verus(ur["path"], extra=["--smt-option", "smt.random_seed=%d" % sd]))
+                info.setdefault("extra_seeds", []).append({"seed": sd, "status": r2["status"]})
+                if r2["status"] != "ok":
+                    undecided.append("%s: proof unstable under solver seed %d (%s)" % (u, sd, r2.get("reason") or "verification failure"))
         n, per_fn, lit = obligations_for(ur, prop)
         obligations += n + lit
         fn_list += [{"unit": u, "item": loc, "clauses": c} for loc, c in per_fn]
